@@ -212,9 +212,23 @@ def _unguarded_results(t):
     return [r] if r[0] not in ("if", "match") else []
 
 
+FEATURES_OF = {"lib-default": {"clpfd"}, "all-targets": {"clpfd"}, "core-extras-clpfd": {"clpfd"}}
+
+
 def run(ctx, fb, cfg):
     lib = fb.lib
     R = "C04."
     check_rerun(ctx, lib, R + "K2.rerun")
     check_stages(ctx, lib, R + "K2.stages")
     check_readd(ctx, lib, R + "K2K6.readd")
+    # a domain restriction is not a stored constraint: it is never re-examined, so every
+    # restriction must be intersected into the store when it is posted (else the outcome depends
+    # on which restriction came first) - shared with C16
+    if "clpfd" in FEATURES_OF.get(cfg, {"clpfd"}):
+        import fdrules
+
+        fdrules.check_domfd(ctx, lib, R + "K2K3.domain-plumbing")
+    # a stored disequality is re-checked with all its pairs in one substitution - shared with C02
+    import C02
+
+    C02.check_run(ctx, lib, R + "K3K6.constraint-run")
